@@ -38,7 +38,7 @@ def main():
             },
             "level_note": getattr(mod, "LEVEL_NOTE", "Trusted base: DESIGN.md §2.10 (Lean kernel; axioms propext/Classical.choice/Quot.sound only; the translator; the correspondence harness). "
                                   + " ".join(getattr(mod, "MODELLED_NOT_VERIFIED", []))),
-            "technique": getattr(mod, "TECHNIQUE", "Lean 4 theorems about a hand-written executable model + differential correspondence check against the implementation + property oracle for replays"),
+            "technique": getattr(mod, "TECHNIQUE", "Lean 4 theorems about an executable model (hand-written loops and object graphs; closed-form kernels, tables and constants regenerated from the source on every run with bridge theorems) + differential correspondence check against the implementation + independent property oracle for failing inputs and replays"),
         })
     man = {
         "version": 1,
@@ -52,7 +52,7 @@ def main():
         },
         "engines": [{"name": "lean4-model+correspondence", "path": "lean/ + harness/",
                      "serves_properties": [c["property_id"] for c in checks],
-                     "kind_free_text": "Lean 4 models and theorems (lean/DendroModel), translator (harness/extract.py, harness/gen), line-protocol drivers (lean/Driver), Python correspondence harness and oracles (harness/props)"}],
+                     "kind_free_text": "Lean 4 models and theorems (lean/DendroModel), translator (harness/extract.py and 26 plug-ins under harness/gen regenerating lean/DendroModel/Gen on every run), line-protocol drivers (lean/Driver), Python correspondence harness and oracles (harness/props)"}],
         "checks": checks,
         "not_applicable": na,
         "notes": "See DESIGN.md. Exit codes: 0 held / only known findings, 1 VIOLATION, 2 infrastructure error.",
